@@ -209,6 +209,10 @@ fn run_cfg(cfg: &Cfg, bin: &std::path::Path, rng: &mut Rng, cov: &mut Cov) -> Re
             std::thread::sleep(Duration::from_millis(20));
         }
     }
+    std::thread::sleep(Duration::from_millis(60));
+    if !proc.alive() {
+        return Err("server exited during start-up (a port was taken by another process?)".into());
+    }
     cov.hit(format!("listen:{}addr:form{}", cfg.addrs.len(), cfg.listen_form));
     cov.hit(format!("data-dir:{}", if cfg.data_by_env { "env" } else { "flag" }));
     cov.hit(format!("allow:{}:form{}", match cfg.allow.len() { 0 => "none", 1 => "one", _ => "many" }, cfg.allow_form));
@@ -389,9 +393,44 @@ pub fn shard_run(tier: &str, seed: u64, replay_case: Option<usize>, shard: Shard
                     break;
                 }
                 Ok(Some(m)) => {
-                    out.found.push(fail(m, &cfg, i));
-                    out.cov = cov;
-                    return out;
+                    // confirm on fresh ports before reporting: a genuine violation of the configuration
+                    // contract reproduces, cross-talk with a foreign listener on a recycled port does not
+                    let mut confirmed = false;
+                    for _ in 0..2 {
+                        let mut c2 = cfg.clone();
+                        let mut ok_ports = true;
+                        for a in c2.addrs.iter_mut() {
+                            match free_port() {
+                                Some(p) => {
+                                    let host = a.rsplit_once(':').map(|x| x.0.to_string()).unwrap_or_default();
+                                    *a = format!("{host}:{p}");
+                                }
+                                None => ok_ports = false,
+                            }
+                        }
+                        if !ok_ports {
+                            break;
+                        }
+                        let mut scratch_cov = Cov::default();
+                        match run_cfg(&c2, &bin, &mut Rng::new(seed).fork(0xC17_000 + i as u64), &mut scratch_cov) {
+                            Ok(Some(_)) => {
+                                confirmed = true;
+                                break;
+                            }
+                            Ok(None) => break,
+                            Err(_) => continue,
+                        }
+                    }
+                    if confirmed {
+                        out.found.push(fail(m, &cfg, i));
+                        out.cov = cov;
+                        return out;
+                    }
+                    cov.count("unconfirmed_observations_discarded", 1);
+                    if attempt >= 3 {
+                        out.errors.push(format!("configuration {i}: observation not reproducible: {m}"));
+                        break;
+                    }
                 }
                 Err(e) => {
                     // start-up problems (port taken, ...) are retried with other ports
